@@ -15,7 +15,7 @@ func (P) NewExec() core.Exec                          { return pxy.New() }
 func (P) Nontrivial(ops []string, impl []string) bool { return pxy.Nontrivial(ops, impl) }
 
 func (P) Rule() string {
-	return "case = one client connection to a MITM-configured proxy: optional plain request, CONNECT, then 1..6 requests inside the tunnel over a real TLS client session (origin-form, http:// and https:// absolute-form targets) or as plain HTTP; TLS origin and cleartext origin on different ports; modifier behaviours incl. hijack inside the tunnel; distinct by op-list hash; non-trivial when >= 2 tunnelled requests were served or a hijack occurred"
+	return "case = one client connection to a MITM-configured proxy (plain, traffic-shaped, transparent-TLS, transparent-TLS+MITM listeners): optional plain request, CONNECT, then 1..6 requests inside the tunnel over a real TLS client session (origin-form, http:// and https:// absolute-form targets) or as plain HTTP, CONNECT inside CONNECT up to depth 3 with a handshake or cleartext at each level; every TLS layer of a connection has its own SNI, protocol version and ALPN outcome and req.TLS is compared with the client's view of the session the request was sent through; TLS origin and cleartext origin on different ports; modifier behaviours incl. hijack inside the tunnel; distinct by op-list hash; non-trivial when >= 2 tunnelled requests were served or a hijack occurred"
 }
 
 func (P) Gen(r *core.Rand, tier string, emit func([]string)) {
@@ -26,7 +26,7 @@ func (P) Gen(r *core.Rand, tier string, emit func([]string)) {
 	pr := pxy.Profile{Modifiers: true, Tunnels: true}
 	for i := 0; i < n; {
 		c := pxy.GenCase(r, pr)
-		if len(c) > 0 && len(c[0]) > 0 && !contains(c[0], "mitm") && !contains(c[0], "listener=tls") {
+		if len(c) > 0 && len(c[0]) > 0 && !contains(c[0], "mitm") && !contains(c[0], "tls") {
 			continue
 		}
 		emit(c)
